@@ -28,6 +28,7 @@ pub fn render(s: &Value, marker: &Path) -> String {
         }
         line.push_str(match k.as_str().unwrap() {
             "echo" => "echo hello",
+            "xecho" => "exec echo child",
             "crash" => "assert_fail boom",
             "exit3" => "exit 3",
             "exit256" => "exit 256",
@@ -101,8 +102,11 @@ pub fn replay(args: &[String]) {
             if errline != exp["errline"].as_bool().unwrap() { why.push(format!("'Error:' line present={}", errline)); }
             if ran != exp["ran"].as_bool().unwrap() { why.push(format!("script executed={} (marker file)", ran)); }
             if echoes != exp["echoes"].as_u64().unwrap() { why.push(format!("{} echo lines, expected {}", echoes, exp["echoes"])); }
+            let lines: Vec<String> = stdout.lines().map(|l| l.trim().to_string()).filter(|l| l == "hello" || l == "child").collect();
+            if json!(lines) != exp["lines"] { why.push(format!("output lines {:?}, expected {}", lines, exp["lines"])); }
+            let has_child = rec["script"]["st"].as_array().unwrap().iter().any(|k| k == "xecho");
             // the same output as the library run
-            if !missing && ["file", "-e", "--eval"].contains(&form.as_str()) {
+            if !missing && !has_child && ["file", "-e", "--eval"].contains(&form.as_str()) {
                 let _ = std::fs::remove_file(&marker);
                 let (lib_ok, lib_out) = library(&text, if form == "file" { Some(&script_path) } else { None });
                 let cli_out: String = stdout.lines().filter(|l| !l.starts_with("Error:")).map(|l| format!("{}\n", l)).collect();
@@ -138,7 +142,7 @@ pub fn record(args: &[String]) {
     let mut s = Summary::new();
     for _ in 0..n {
         let len = 1 + r.below(10);
-        let mut st: Vec<&str> = (0..len).map(|_| *r.pick(&["echo", "echo", "echo", "echo", "echo", "crash", "exit3", "exit256", "exit0", "badquote", "unknowncmd", "ECHO", "none", "out", "out", "OUT", "lbl", "lbl", "LBL"])).collect();
+        let mut st: Vec<&str> = (0..len).map(|_| *r.pick(&["echo", "echo", "echo", "echo", "xecho", "crash", "exit3", "exit256", "exit0", "badquote", "unknowncmd", "ECHO", "none", "out", "out", "OUT", "lbl", "lbl", "LBL"])).collect();
         if ["out", "OUT", "lbl", "LBL"].contains(&st[0]) { st[0] = "none"; }
         let missing = r.chance(1, 15);
         let script = json!({"st": st, "label": *r.pick(&["none", "lower", "Upper"]), "out": *r.pick(&["none", "none", "lower", "Upper"]), "missing": missing});
@@ -153,9 +157,10 @@ pub fn record(args: &[String]) {
         let o = cmd.output().expect("run duck");
         let stdout = String::from_utf8_lossy(&o.stdout).into_owned();
         let obs = json!({"status0": o.status.code() == Some(0), "errline": stdout.lines().any(|l| l.starts_with("Error:")), "ran": marker.exists(),
-                         "echoes": stdout.lines().filter(|l| l.trim() == "hello").count()});
+                         "echoes": stdout.lines().filter(|l| l.trim() == "hello").count(),
+                         "lines": stdout.lines().map(|l| l.trim().to_string()).filter(|l| l == "hello" || l == "child").collect::<Vec<_>>()});
         let mut same = true;
-        if !missing && ["file", "-e", "--eval"].contains(&form) {
+        if !missing && !st.contains(&"xecho") && ["file", "-e", "--eval"].contains(&form) {
             let (lib_ok, lib_out) = library(&text, if form == "file" { Some(&script_path) } else { None });
             let cli_out: String = stdout.lines().filter(|l| !l.starts_with("Error:")).map(|l| format!("{}\n", l)).collect();
             let lib_norm: String = lib_out.lines().map(|l| format!("{}\n", l)).collect();
